@@ -630,7 +630,7 @@ fn vertex_case(rng: &mut Rng) -> Vec<TrackSpec> {
     let mut v: Vec<TrackSpec> = Vec::new();
     let zs = [-0.3, -0.3 + 0.02, 0.0, 0.01, 0.033, 0.0345, 0.4, 0.4];
     let radii = [0.25, 0.25, 0.5, 0.5, 1.0, 0.125, 2.0, 0.75];
-    let mode = rng.below(6);
+    let mode = rng.below(7);
     for i in 0..n {
         let zc = *rng.pick(&zs);
         let rr = *rng.pick(&radii);
@@ -645,6 +645,12 @@ fn vertex_case(rng: &mut Rng) -> Vec<TrackSpec> {
             0 => good_track(rng, zc, rr, hh),
             // exact duplicates of earlier tracks
             1 if i > 0 && coin => *rng.pick(&v),
+            // tracks meeting beyond the detector half length (a vertex fitted at |z| > 1.152 m is still a
+            // vertex for the bookkeeping: its tracks belong to it, not nowhere)
+            6 => {
+                let zc6 = [1.2, -1.2, 1.3, -1.3, 1.16, -1.16][(u1 * 6.0) as usize % 6];
+                good_track(rng, zc6, rr, hh)
+            }
             // twins: the helix of an earlier track bit for bit, another t range (a short one that fails
             // the length cut, a longer one, a reversed one) - a track is its helix AND its range (seed C15-5)
             5 if i > 0 && coin => {
@@ -819,6 +825,35 @@ pub fn generate(s: &mut Session, thorough: bool) -> bool {
         };
         let (req, imp, why) = run_cloud(&pts, cfg);
         s.push_oracle("degenerate", req, imp, why);
+    }
+    // (iv-b) clouds slightly around the drift volume, as the property quantifies: tracks that reach
+    // |z| up to 1.3 m (either sign), and points whose azimuth is given outside (-pi, pi] (phi is any
+    // real number for a SpacePoint; the output must be the INPUT points, bit for bit)
+    for k in 0..(if thorough { 300 } else { 40 }) {
+        let npts = rng.range(13, 40) as usize;
+        let mut pts = helix_points(&mut rng, npts, 0.0005);
+        if pts.is_empty() {
+            continue;
+        }
+        if k % 2 == 0 {
+            let zmax = pts.iter().map(|p| p.z.value).fold(f64::MIN, f64::max);
+            let zmin = pts.iter().map(|p| p.z.value).fold(f64::MAX, f64::min);
+            let target = 1.15 + 0.15 * rng.f64_unit();
+            let (shift, _) = if rng.bool() { (target - zmax, 0) } else { (-target - zmin, 0) };
+            for p in pts.iter_mut() {
+                *p = sp(p.r.value, p.phi.value, p.z.value + shift);
+            }
+        } else {
+            for (i, p) in pts.iter_mut().enumerate() {
+                let turn = match (i + k) % 3 { 0 => 2.0 * PI, 1 => -2.0 * PI, _ => 0.0 };
+                *p = sp(p.r.value, p.phi.value + turn, p.z.value);
+            }
+        }
+        for _ in 0..rng.below(6) {
+            pts.push(random_point(&mut rng));
+        }
+        let (req, imp, why) = run_cloud(&pts, PUBLIC);
+        s.push_oracle("around-the-volume", req, imp, why);
     }
     // (v) find_vertices bookkeeping on track lists of size 0..=8 with ties
     let mut ambiguous = 0u64;
